@@ -169,3 +169,19 @@ func PConnectTCP(sa real.Sockaddr, v6 bool) (int, real.Sockaddr, error) {
 	local, _ := real.Getsockname(fd)
 	return fd, local, nil
 }
+
+// FrameworkFds lists the descriptors of the given kind that the framework owns.
+//
+//go:norace
+func FrameworkFds(kind string) []int {
+	var out []int
+	if L == nil {
+		return out
+	}
+	for fd := 0; fd < maxFd; fd++ {
+		if st := L.get(fd); st != nil && st.owner == "fw" && st.kind == kind {
+			out = append(out, fd)
+		}
+	}
+	return out
+}
